@@ -130,6 +130,7 @@ def run(ctx):
         judge = Judge(ctx, ov, tdig)
         exp = model.expected(REPO, b.cfg.dist, b.cfg.abi, b.cfg.ver, b.cfg.full == "full")
         jobs = []
+        lits = {}
         for rel in matrix.top_profiles(b.aad):
             srcinfo = exp.aad.get(rel)
             if not srcinfo or srcinfo[0] != "F":
@@ -144,6 +145,7 @@ def run(ctx):
             pre = preamble_of(stext)
             lit = " ".join(bh.attachments)
             seen_pairs.add(digest(pre, lit, tdig))
+            lits[rel] = lit
             jobs.append((rel, pre, lit))
 
         def one(j):
@@ -159,7 +161,7 @@ def run(ctx):
                 samples.append({"profile": rel, "cfg": b.cfg.id, "built_attachment": lit[:160], "verdict": verdict})
             name = rel.replace(".apparmor.d", "")
             if verdict == "differ":
-                agg.setdefault("C06/attachment/%s/%s" % (name, b.cfg.dist), []).append((b.cfg.id, "%s: built attachment %s vs @{exec_path}: %s" % (name, lit[:200], info)))
+                agg.setdefault("C06/attachment/%s/%s/%s" % (name, b.cfg.dist, digest(lit)[:8]), []).append((b.cfg.id, "%s: built attachment %s vs @{exec_path}: %s" % (name, lit[:200], info)))
             elif verdict == "reject-b":
                 agg.setdefault("C06/attachment-rejected/%s" % name, []).append((b.cfg.id, "%s: the built attachment %s is rejected by the parser: %s" % (name, lit[:200], info)))
             elif verdict in ("inconclusive", "reject-a"):
@@ -213,14 +215,21 @@ def run(ctx):
             if not all(p.startswith("/") for p in paths):
                 return j, ("differ", "a generated rule path does not start with '/': %s" % paths[:3])
             union = paths[0] if len(paths) == 1 else "/{" + ",".join(p[1:] for p in paths) + "}"
-            return j, judge.compare(attach_stub(pre, "@{exec_path}"), attach_stub(pre, union))
+            v = judge.compare(attach_stub(pre, "@{exec_path}"), attach_stub(pre, union))
+            if v[0] == "differ" and lits.get(t) and any(k.startswith("C06/attachment/%s/%s/" % (t, b.cfg.dist)) for k in agg):
+                # the attachment of this profile is already reported (key pinned to the built literal): the exec rules are the
+                # same finding only if they are observed to match exactly what that literal matches
+                v2 = judge.compare(attach_stub(pre, lits[t]), attach_stub(pre, union))
+                if v2[0] == "equal":
+                    return j, ("same-as-attachment", None)
+            return j, v
 
         for (t, pre, paths), (verdict, info) in pmap(eone, ejobs):
             ctx.case(digest("exec", t, b.cfg.id) if nontrivial_pre(pre) else None)
-            if verdict == "differ" and ("C06/attachment/%s/%s" % (t, b.cfg.dist)) in agg:
-                pass     # same resolution of the same @{exec_path}: already reported for the attachment
+            if verdict == "same-as-attachment":
+                ctx.extra["exec_rules_equal_to_reported_attachment"] = ctx.extra.get("exec_rules_equal_to_reported_attachment", 0) + 1
             elif verdict == "differ":
-                agg.setdefault("C06/exec-rules/%s/%s" % (t, b.cfg.dist), []).append((b.cfg.id, "#aa:exec %s: generated rules %s vs @{exec_path}: %s" % (t, paths[:4], info)))
+                agg.setdefault("C06/exec-rules/%s/%s/%s" % (t, b.cfg.dist, digest("|".join(paths))[:8]), []).append((b.cfg.id, "#aa:exec %s: generated rules %s vs @{exec_path}: %s" % (t, paths[:4], info)))
             elif verdict == "reject-b":
                 agg.setdefault("C06/exec-rules-rejected/%s" % t, []).append((b.cfg.id, "#aa:exec %s: generated rules rejected: %s" % (t, info)))
             elif verdict in ("inconclusive", "reject-a"):
